@@ -19,3 +19,13 @@ func TestC23(t *testing.T) {
 func TestC24(t *testing.T) {
 	sim.Main(t, sim.Spec{Property: "C24", Engine: "E2-storage", Run: RunTables})
 }
+
+func TestC14(t *testing.T) {
+	sim.Main(t, sim.Spec{Property: "C14", Engine: "E2-storage", Run: RunBuffer})
+}
+func TestC26(t *testing.T) {
+	sim.Main(t, sim.Spec{Property: "C26", Engine: "E2-storage", Run: RunMultiDB})
+}
+func TestC27(t *testing.T) {
+	sim.Main(t, sim.Spec{Property: "C27", Engine: "E2-storage", Run: RunCachedProducer})
+}
